@@ -11,3 +11,4 @@ import SmtpV.Props.C15Calls
 #print axioms SmtpV.Props.C15.C15_call_whole_lines
 #print axioms SmtpV.Props.C15.C15_one_line_per_call
 #print axioms SmtpV.Props.C15.C15_history_keeps_premises
+#print axioms SmtpV.Props.C15.C15_auth_whole_lines
